@@ -272,4 +272,4 @@ def strategy(tier):
 
 
 PARTS = [Part("service", eval_case, {"quick": 800, "thorough": 20000}, strategy=strategy, min_nontrivial={"quick": 300, "thorough": 8000})]
-MIN_SHARE = {"service": {"multi-zone": 0.2, "DO_VERTICAL_GCC=True": 0.1, "DO_ASSITED_HT=True": 0.1, "DO_BALANCED_CC=False": 0.1}}
+MIN_SHARE = {"service": {"multi-zone": 0.2, "DO_VERTICAL_GCC=True": 0.067, "DO_ASSITED_HT=True": 0.058, "DO_BALANCED_CC=False": 0.087}}
